@@ -511,3 +511,137 @@ func ruleR05j(c *Ctx) {
 		}
 	}
 }
+
+// ---- R06i: the batch job reports the outcome of the persistence --------------------------------------------
+//
+// The job runner stops the process when a job fails (R06d) and fires the acknowledgement callbacks when it succeeds
+// (R06c). The job of a batcher is "call the persistence function on the batch": the function NewBatcher hands to the
+// runner must return the error of that call on every path — `_ = runner(…); return nil` acknowledges writes that
+// were never persisted.
+func ruleR06i(c *Ctx) {
+	const rule = "R06i"
+	nb := c.MustFn(rule, pkgBatching, "NewBatcher")
+	if nb == nil {
+		return
+	}
+	bodies := []*ssa.Function{nb}
+	if len(nb.Blocks) == 0 {
+		bodies = c.AllInstancesOf(nb)
+	}
+	if len(bodies) == 0 {
+		c.undecided(rule, "anchor:NewBatcher-body", token.NoPos, "no body of NewBatcher found")
+		return
+	}
+	fn := bodies[0]
+	if len(fn.Params) == 0 {
+		return
+	}
+	runnerParam := fn.Params[0]
+	n := 0
+	var lits []*ssa.Function
+	var collect func(g *ssa.Function)
+	collect = func(g *ssa.Function) {
+		for _, a := range g.AnonFuncs {
+			lits = append(lits, a)
+			collect(a)
+		}
+	}
+	collect(fn)
+	for _, lit := range lits {
+		// the calls of the persistence function in this literal
+		var runnerCalls []*ssa.Call
+		allCalls(lit, func(ci ssa.CallInstruction) {
+			call, ok := ci.(*ssa.Call)
+			if !ok || ci.Common().IsInvoke() || staticCallee(ci) != nil {
+				return
+			}
+			for _, r := range roots(ci.Common().Value, nil) {
+				if fv, ok := r.(*ssa.FreeVar); ok && fv.Name() == runnerParam.Name() {
+					runnerCalls = append(runnerCalls, call)
+				}
+				if r == ssa.Value(runnerParam) {
+					runnerCalls = append(runnerCalls, call)
+				}
+			}
+		})
+		if len(runnerCalls) == 0 || lit.Signature.Results().Len() != 1 {
+			continue
+		}
+		n++
+		c.seeFn(lit)
+		key := "NewBatcher:job-returns-the-error-of-the-persistence"
+		obl := newOblSet(c, rule)
+		obl.expect(key, lit.Pos(), "every return of the job is the error of the persistence call (nil only behind its nil edge)")
+		isRunnerCall := func(v ssa.Value) bool {
+			for _, rc := range runnerCalls {
+				if v == ssa.Value(rc) {
+					return true
+				}
+			}
+			return false
+		}
+		pr := &PathRule{
+			Edge: func(pc *PathCtx, s uint64, from *ssa.BasicBlock, si int) (uint64, bool) {
+				for _, f := range pc.edgeFacts(from, si) {
+					if isRunnerCall(f.X) && isNilConst(f.Y) {
+						if f.Eq {
+							s |= 1
+						} else {
+							s &^= 1
+						}
+					}
+				}
+				return s, true
+			},
+			Step: func(pc *PathCtx, s uint64, ins ssa.Instruction) uint64 {
+				if v, ok := ins.(ssa.Value); ok && isRunnerCall(v) {
+					return (s | 2) &^ 1
+				}
+				return s
+			},
+			Exit: func(pc *PathCtx, s uint64, ins ssa.Instruction) {
+				ret, ok := ins.(*ssa.Return)
+				if !ok || pc.parent != nil || len(ret.Results) != 1 {
+					return
+				}
+				v := ret.Results[0]
+				derived := false
+				for _, r := range roots(v, nil) {
+					if isRunnerCall(r) {
+						derived = true
+					}
+					// a wrapped error: errors.Wrap(err, …), fmt.Errorf("…%w", err)
+					if call, ok := r.(*ssa.Call); ok && !isRunnerCall(call) {
+						for _, a := range call.Call.Args {
+							for _, rr := range roots(a, nil) {
+								if isRunnerCall(rr) {
+									derived = true
+								}
+							}
+							for _, e := range variadicElems(a) {
+								for _, rr := range roots(e, nil) {
+									if isRunnerCall(rr) {
+										derived = true
+									}
+								}
+							}
+						}
+					}
+				}
+				switch {
+				case derived:
+				case isNilConst(v) && s&1 != 0:
+				case isNilConst(v) && s&2 == 0:
+					obl.violate(key, ret.Pos(), "the job returns nil on a path that did not call the persistence function", pc.Trail())
+				default:
+					obl.violate(key, ret.Pos(), "the job returns a value that is not the error of the persistence call, on a path where that error may be non-nil: a failed InsertLogs is reported as a success, the batch callbacks acknowledge writes that were never persisted", pc.Trail())
+				}
+			},
+		}
+		c.RunPaths(lit, 0, pr)
+		obl.flush()
+	}
+	if n == 0 {
+		c.undecided(rule, "floor:batch-job", token.NoPos, "no literal of NewBatcher calls the persistence function it was given")
+	}
+}
